@@ -35,6 +35,16 @@ def curve3_dedup_rule(cx):
               'the duplicate filter is the only thing that removes section vertices', where=b.file)
 
 def run(cx):
+    # the TriMesh that split / section run on is built from the vertices and faces alone: the solid flag is a query option, not a build option
+    # (with ORIENTED pseudo-normals parry's split caps both halves, and the areas of the parts no longer add up to the area of the mesh)
+    M = 'geom3::mesh::Mesh'
+    for fn in (f'{M}::new', f'{M}::new_with_uv'):
+        b = cx.fn(fn)
+        if b:
+            lits = b.aggregates(M)
+            ok = len(lits) == 1 and match('(unwrap (call TriMesh::new (param vertices) (param triangles)))', dict(cx.aggval(lits[0])[2:]).get('shape')) is not None
+            cx.ob('CONSTRUCT', f'{fn.split("::")[-1]}:plain-trimesh', ok, f'{fn.split("::")[-1]} stores TriMesh::new(vertices, triangles) as built: no flags are set on it afterwards and nothing about it depends on is_solid',
+                  where=b.file, found='; '.join(show(dict(cx.aggval(l_)[2:]).get('shape'))[:200] for l_ in lits))
     # 'sectioning commutes with rigid motion of mesh and plane together' needs the plane to move as a plane (rule shared with C03)
     from rules.C03 import plane_transform_rule, mesh_transform_rule
     plane_transform_rule(cx)
